@@ -391,6 +391,8 @@ Definition assign_value (v : val) : val :=
 (* ConvertToAssignments: the non-zero key of the Model value becomes a condition, after the chain's *)
 Definition with_model_key (s : st) : st :=
   match s_mpk s, t_pk (s_ti s) with
+  | Some (VList _ keys), Some pk =>       (* Model(&records): IN over the key column *)
+    match keys with [] => s | _ => set_where s (s_where s ++ [VIn (VCol "" pk "" false) keys]) end
   | Some v, Some pk => set_where s (s_where s ++ [VCmp OEq (VQStr pk) v])
   | _, _ => s
   end.
